@@ -62,6 +62,7 @@ const (
 	oUnit
 	oOpt  // a pointer to a map / slice, or an interface value that is nil or one known layer: Option
 	oTime // a time.Time: the seconds it denotes (times are only compared)
+	oExt  // a value described by a type of another generated module (Gen/Keys.lean: a hash.Hash the module builds, …)
 )
 
 // otype: the Lean type of a Go value
@@ -71,6 +72,7 @@ type otype struct {
 	key   *otype       // oMap
 	named *types.Named // oStruct
 	sh    bool         // oStruct declared in Gen/Dec.lean
+	ext   string       // oExt: the Lean type
 }
 
 func (t *otype) lean() string {
@@ -95,6 +97,8 @@ func (t *otype) lean() string {
 		return "Option " + paren(t.elem.lean())
 	case oTime:
 		return "Int"
+	case oExt:
+		return t.ext
 	case oMap:
 		return "List (" + t.key.lean() + " × " + t.elem.lean() + ")"
 	case oStruct:
@@ -148,6 +152,7 @@ type oparam struct{ name, typ, doc string }
 // ofnInfo: a translated function
 type ofnInfo struct {
 	name    string
+	track   bool // hs.go: the result is `Except String T`
 	pure    bool
 	cell    *cmdInfo // the cell of the function's state (a pointer parameter), nil when it has none (or allocates its own)
 	needs   map[string]oparam
@@ -169,6 +174,14 @@ type ogen struct {
 	pkgVars    map[*types.Var]string
 	baseUse    map[*types.Named]map[string]bool // BaseLayer.Contents / BaseLayer.Payload used
 	layerDec   map[*types.Named]string          // layer types of the NewPacket idiom: their decoder in Gen/Dec.lean
+
+	// session establishment (hs.go)
+	hs        bool                               // mode -hs
+	phaseHs   bool                               // the targets of hs.go are being translated (their extra checks apply)
+	partial   map[*types.Named]bool              // structures with fields outside the language: only the fields used are declared
+	fieldOver map[*types.Named]map[string]*otype // interface-typed fields of such structures: the Lean type of what is stored there
+	hsTrack   map[*types.Func]bool               // targets whose directly returned sentinel errors are told apart
+	escaped   map[*types.Named]map[string]bool   // fields of partial structures whose address was handed to gopacket: never modelled
 }
 
 func (og *ogen) reset() {
@@ -181,10 +194,96 @@ func (og *ogen) reset() {
 	og.cmds = map[*types.Named]*cmdInfo{}
 	og.pkgVars = map[*types.Var]string{}
 	og.baseUse = map[*types.Named]map[string]bool{}
+	og.partial = map[*types.Named]bool{}
+	og.fieldOver = map[*types.Named]map[string]*otype{}
+	og.escaped = map[*types.Named]map[string]bool{}
+}
+
+// orchOut: what one run of the translator produced
+type orchOut struct {
+	structNames []string          // Lean structures, in the order of the output
+	structText  map[string]string // their declarations
+	defNames    []string
+	defText     map[string]string
+	translated  []string // per target list
+	gaveUp      []string
+	comments    []string
 }
 
 func orchMain(g *gen) {
-	og := &ogen{g: g, shared: map[string]map[string]bool{}}
+	o := orchCollect(g, false)
+	var out strings.Builder
+	out.WriteString("-- GENERATED by orchgen (decgen -orch) from the Go sources; do not edit.\n")
+	out.WriteString("-- Every definition is a function of what the BMC answers to each request, in order: `send_<Cmd>` parameters are the\n")
+	out.WriteString("-- answer functions (state, request struct ↦ new state, response struct afterwards, error is nil), threaded through\n")
+	out.WriteString("-- the state monad `GoOrch.M`; the command struct behind the pointer given to SendCommand is the CELL of the state.\n")
+	out.WriteString("-- `for` loops run with the parameter `fuel` (`RF.outOfFuel` beyond it). Go `int` is ℕ (values are lengths, counts and\n")
+	out.WriteString("-- conversions of unsigned fields; no wrap-around at 2^63); Go maps are association lists in insertion order (the\n")
+	out.WriteString("-- iteration order of a map is only used for a commutative sum); a pointer to a struct is the struct's value.\n")
+	out.WriteString("import Bmc.Basic.GoOrch\nimport Bmc.Gen.Dec\nnamespace Bmc.Gen.Orch\nopen Bmc Bmc.GoOrch\n\n")
+	for _, c := range o.comments {
+		out.WriteString(c + "\n")
+	}
+	out.WriteString("\n")
+	for _, n := range o.structNames {
+		out.WriteString(o.structText[n])
+	}
+	for _, n := range o.defNames {
+		out.WriteString(o.defText[n])
+		out.WriteString("\n")
+	}
+	out.WriteString("def translated : List String := [" + quoteJoin(o.translated) + "]\n")
+	out.WriteString("def gaveUp : List String := [" + quoteJoin(o.gaveUp) + "]\n")
+	out.WriteString("\nend Bmc.Gen.Orch\n")
+	fmt.Print(out.String())
+}
+
+// orchRun (hs): the targets of hs.go on top of those of -orch; prints only what they add (Gen/Hs.lean imports Gen/Orch.lean)
+func orchRun(g *gen, hs bool) string {
+	base := orchCollect(g, false)
+	full := orchCollect(g, true)
+	if os.Getenv("HSGEN_DEBUG") != "" {
+		for _, c := range full.comments {
+			fmt.Fprintln(os.Stderr, c)
+		}
+	}
+	for _, n := range base.structNames {
+		if full.structText[n] != base.structText[n] {
+			fmt.Fprintf(os.Stderr, "hsgen: internal: the -hs run declares the structure %s of -orch differently\n%s\n%s\n", n, base.structText[n], full.structText[n])
+			os.Exit(2)
+		}
+	}
+	for _, n := range base.defNames {
+		if full.defText[n] != base.defText[n] {
+			fmt.Fprintf(os.Stderr, "hsgen: internal: the -hs run translates %s of -orch differently\n", n)
+			os.Exit(2)
+		}
+	}
+	var out strings.Builder
+	out.WriteString(hsHeader())
+	for _, c := range full.comments[len(base.comments):] {
+		out.WriteString(c + "\n")
+	}
+	out.WriteString("\n")
+	for _, n := range full.structNames {
+		if _, inBase := base.structText[n]; !inBase {
+			out.WriteString(full.structText[n])
+		}
+	}
+	for _, n := range full.defNames {
+		if _, inBase := base.defText[n]; !inBase {
+			out.WriteString(full.defText[n])
+			out.WriteString("\n")
+		}
+	}
+	out.WriteString("def translated : List String := [" + quoteJoin(full.translated[len(base.translated):]) + "]\n")
+	out.WriteString("def gaveUp : List String := [" + quoteJoin(full.gaveUp[len(base.gaveUp):]) + "]\n")
+	out.WriteString("\nend Bmc.Gen.Hs\n")
+	return out.String()
+}
+
+func orchCollect(g *gen, hs bool) *orchOut {
+	og := &ogen{g: g, shared: map[string]map[string]bool{}, hs: hs, hsTrack: map[*types.Func]bool{}}
 	// the structures Gen/Dec.lean declares for the byte parsers orchestration functions call: run decgen's translation
 	for full := range decgenFuncs {
 		var l *layer
@@ -218,34 +317,17 @@ func orchMain(g *gen) {
 	type target struct {
 		fn   *types.Func
 		name string
+		hs   bool
 	}
 	var targets []target
-	for _, t := range orchTargets {
-		var found *types.Func
-		for fn := range g.funcs {
-			if fn.Pkg().Path() != t[0] || fn.Name() != t[2] {
-				continue
-			}
-			sig := fn.Type().(*types.Signature)
-			rn := ""
-			if sig.Recv() != nil {
-				rt := sig.Recv().Type()
-				if p, ok := rt.(*types.Pointer); ok {
-					rt = p.Elem()
-				}
-				if n, ok := rt.(*types.Named); ok {
-					rn = n.Obj().Name()
-				}
-			}
-			if rn == t[1] {
-				found = fn
-			}
+	for _, fn := range findTargets(g, orchTargets, "orchgen") {
+		targets = append(targets, target{fn, orchDisplayName(fn), false})
+	}
+	if hs {
+		for _, fn := range findTargets(g, hsTargets, "hsgen") {
+			targets = append(targets, target{fn, orchDisplayName(fn), true})
+			og.hsTrack[fn] = true
 		}
-		if found == nil {
-			fmt.Fprintf(os.Stderr, "orchgen: function %s.%s not found\n", t[0], t[2])
-			os.Exit(2)
-		}
-		targets = append(targets, target{found, orchDisplayName(found)})
 	}
 	// the functions reachable from the targets by static calls inside the module (for the read-only check of package-level tables)
 	og.reach = map[*ast.FuncDecl]bool{}
@@ -266,7 +348,9 @@ func orchMain(g *gen) {
 		})
 	}
 	for _, t := range targets {
-		visit(t.fn)
+		if !t.hs {
+			visit(t.fn)
+		}
 	}
 
 	// the layer types handed to `gopacket.NewPacket` in those functions: their structures and decoders are Gen/Dec.lean's
@@ -319,46 +403,36 @@ func orchMain(g *gen) {
 	reasons := map[string]string{}
 	for _, t := range targets {
 		og.reset()
+		og.phaseHs = t.hs
 		_, reason := og.translateTarget(t.fn)
 		reasons[t.name] = reason
 	}
 	// round 2: only the translatable ones contribute structures and definitions
 	og.reset()
-	var translated, gaveUpList, comments []string
+	o := &orchOut{structText: map[string]string{}, defText: map[string]string{}}
+	tool := "orchgen"
 	for _, t := range targets {
+		og.phaseHs = t.hs
+		if t.hs {
+			tool = "hsgen"
+		}
 		if reasons[t.name] != "" {
-			gaveUpList = append(gaveUpList, t.name)
-			comments = append(comments, fmt.Sprintf("-- orchgen: gave up on %s: %s", t.name, reasons[t.name]))
+			o.gaveUp = append(o.gaveUp, t.name)
+			o.comments = append(o.comments, fmt.Sprintf("-- %s: gave up on %s: %s", tool, t.name, reasons[t.name]))
 			continue
 		}
 		if _, reason := og.translateTarget(t.fn); reason != "" {
-			fmt.Fprintln(os.Stderr, "orchgen: internal: second round failed for", t.name, reason)
+			fmt.Fprintln(os.Stderr, tool+": internal: second round failed for", t.name, reason)
 			os.Exit(2)
 		}
-		translated = append(translated, t.name)
+		o.translated = append(o.translated, t.name)
 	}
-	var out strings.Builder
-	out.WriteString("-- GENERATED by orchgen (decgen -orch) from the Go sources; do not edit.\n")
-	out.WriteString("-- Every definition is a function of what the BMC answers to each request, in order: `send_<Cmd>` parameters are the\n")
-	out.WriteString("-- answer functions (state, request struct ↦ new state, response struct afterwards, error is nil), threaded through\n")
-	out.WriteString("-- the state monad `GoOrch.M`; the command struct behind the pointer given to SendCommand is the CELL of the state.\n")
-	out.WriteString("-- `for` loops run with the parameter `fuel` (`RF.outOfFuel` beyond it). Go `int` is ℕ (values are lengths, counts and\n")
-	out.WriteString("-- conversions of unsigned fields; no wrap-around at 2^63); Go maps are association lists in insertion order (the\n")
-	out.WriteString("-- iteration order of a map is only used for a commutative sum); a pointer to a struct is the struct's value.\n")
-	out.WriteString("import Bmc.Basic.GoOrch\nimport Bmc.Gen.Dec\nnamespace Bmc.Gen.Orch\nopen Bmc Bmc.GoOrch\n\n")
-	for _, c := range comments {
-		out.WriteString(c + "\n")
-	}
-	out.WriteString("\n")
-	out.WriteString(og.structDecls())
+	o.structNames, o.structText = og.structDecls()
 	for _, n := range og.defOrder {
-		out.WriteString(og.defs[n])
-		out.WriteString("\n")
+		o.defNames = append(o.defNames, n)
+		o.defText[n] = og.defs[n]
 	}
-	out.WriteString("def translated : List String := [" + quoteJoin(translated) + "]\n")
-	out.WriteString("def gaveUp : List String := [" + quoteJoin(gaveUpList) + "]\n")
-	out.WriteString("\nend Bmc.Gen.Orch\n")
-	fmt.Print(out.String())
+	return o
 }
 
 // closeStructUse: decgen's structDecls adds the structures nested in used fields; reproduce that closure
@@ -443,6 +517,9 @@ func (og *ogen) translateTarget(fn *types.Func) (info *ofnInfo, reason string) {
 // ---- types ----------------------------------------------------------------------------------------------------------
 
 func (og *ogen) typeOf(t types.Type) (*otype, bool) {
+	if ext := og.extType(t); ext != nil {
+		return ext, true
+	}
 	if p, ok := t.(*types.Pointer); ok {
 		// a pointer to a structure is the structure's value (aliasing through it is outside the language: the translator
 		// accepts a pointer only where it is created and handed on — a command for SendCommand, a result)
@@ -481,6 +558,10 @@ func (og *ogen) typeOf(t types.Type) (*otype, bool) {
 			return &otype{k: oNat}, true
 		case types.Bool, types.UntypedBool:
 			return &otype{k: oBool}, true
+		case types.String:
+			if og.hs {
+				return &otype{k: oBytes}, true // a Go string is its bytes (len = the byte count)
+			}
 		}
 	case *types.Slice:
 		if isPlainByte(u.Elem()) {
@@ -520,12 +601,19 @@ func (og *ogen) typeOf(t types.Type) (*otype, bool) {
 }
 
 // useStruct: declare the Lean structure of a Go struct: every field whose type is inside the language (BaseLayer, times,
-// interfaces, functions … are left out; a use of such a field makes the translator give up)
+// interfaces, functions … are left out; a use of such a field makes the translator give up). A structure that has fields
+// outside the language whose types are not structures themselves (hs.go: isPartial — `bmc.V2Session`) is a PARTIAL view: only
+// the fields the translated code sets or reads are declared (hasField records them).
 func (og *ogen) useStruct(n *types.Named) {
 	if _, done := og.structs[n]; done {
 		return
 	}
 	og.structs[n] = nil
+	if og.hs && og.isPartial(n) {
+		og.partial[n] = true
+		og.structSeen = append(og.structSeen, n)
+		return
+	}
 	st := n.Underlying().(*types.Struct)
 	var fields []string
 	for i := 0; i < st.NumFields(); i++ {
@@ -551,10 +639,51 @@ func (og *ogen) hasField(n *types.Named, goField string) bool {
 			return true
 		}
 	}
+	if og.partial[n] {
+		st := n.Underlying().(*types.Struct)
+		for i := 0; i < st.NumFields(); i++ {
+			fl := st.Field(i)
+			if fl.Name() != goField || isBaseLayer(fl.Type()) || og.escaped[n][goField] {
+				continue
+			}
+			if _, over := og.fieldOver[n][goField]; !over {
+				if _, ok := og.typeOf(fl.Type()); !ok {
+					return false
+				}
+			}
+			og.structs[n] = append(og.structs[n], goField)
+			return true
+		}
+	}
 	return false
 }
 
-func (og *ogen) structDecls() string {
+// fieldName: the Lean name of a field of a structure declared here: leanField, with `_` appended to an unexported field
+// whose name collides with an exported one (`V2Session.IntegrityAlgorithm` / `V2Session.integrityAlgorithm`)
+func (og *ogen) fieldName(n *types.Named, goField string) string {
+	lf := leanField(goField)
+	if n == nil || goField == "" || (goField[0] >= 'A' && goField[0] <= 'Z') {
+		return lf
+	}
+	if st, ok := n.Underlying().(*types.Struct); ok {
+		for i := 0; i < st.NumFields(); i++ {
+			if o := st.Field(i).Name(); o != goField && leanField(o) == lf {
+				return lf + "_"
+			}
+		}
+	}
+	return lf
+}
+
+// fieldOType: the Lean type of a field of a structure declared here
+func (og *ogen) fieldOType(n *types.Named, fl *types.Var) (*otype, bool) {
+	if t, over := og.fieldOver[n][fl.Name()]; over {
+		return t, true
+	}
+	return og.typeOf(fl.Type())
+}
+
+func (og *ogen) structDecls() ([]string, map[string]string) {
 	// nested structures first; otherwise in order of first use
 	var order []*types.Named
 	done := map[*types.Named]bool{}
@@ -568,6 +697,12 @@ func (og *ogen) structDecls() string {
 		for _, fn := range og.structs[t] {
 			for i := 0; i < st.NumFields(); i++ {
 				if st.Field(i).Name() == fn {
+					if ov, over := og.fieldOver[t][fn]; over {
+						if ov.k == oStruct && !ov.sh {
+							visit(ov.named)
+						}
+						continue
+					}
 					og.visitFieldStructs(st.Field(i).Type(), visit)
 				}
 			}
@@ -577,10 +712,16 @@ func (og *ogen) structDecls() string {
 	for _, t := range og.structSeen {
 		visit(t)
 	}
-	var b strings.Builder
+	var names []string
+	texts := map[string]string{}
 	for _, t := range order {
+		var b strings.Builder
 		st := t.Underlying().(*types.Struct)
-		fmt.Fprintf(&b, "/-- `%s.%s` (the fields whose types are inside the language) -/\nstructure %s where\n", t.Obj().Pkg().Name(), t.Obj().Name(), t.Obj().Name())
+		what := "the fields whose types are inside the language"
+		if og.partial[t] {
+			what = "a PARTIAL view: the fields the translated code sets or reads"
+		}
+		fmt.Fprintf(&b, "/-- `%s.%s` (%s) -/\nstructure %s where\n", t.Obj().Pkg().Name(), t.Obj().Name(), what, t.Obj().Name())
 		n := 0
 		for _, sub := range []string{"Contents", "Payload"} {
 			if og.baseUse[t][sub] {
@@ -588,10 +729,10 @@ func (og *ogen) structDecls() string {
 				n++
 			}
 		}
-		for _, fn := range og.structs[t] {
-			for i := 0; i < st.NumFields(); i++ {
+		for i := 0; i < st.NumFields(); i++ {
+			for _, fn := range og.structs[t] {
 				if st.Field(i).Name() == fn {
-					ft, _ := og.typeOf(st.Field(i).Type())
+					ft, _ := og.fieldOType(t, st.Field(i))
 					zero := ft.zero()
 					if ft.k == oStruct {
 						zero = "{}"
@@ -608,7 +749,11 @@ func (og *ogen) structDecls() string {
 					if ft.k == oOpt {
 						zero = "none"
 					}
-					fmt.Fprintf(&b, "  %s : %s := %s\n", leanField(fn), ft.lean(), zero)
+					if ft.k == oExt || (ft.k == oStruct && og.noDefault(ft.named)) {
+						fmt.Fprintf(&b, "  %s : %s\n", og.fieldName(t, fn), ft.lean()) // a nil interface value has no description
+					} else {
+						fmt.Fprintf(&b, "  %s : %s := %s\n", og.fieldName(t, fn), ft.lean(), zero)
+					}
 					n++
 				}
 			}
@@ -617,8 +762,13 @@ func (og *ogen) structDecls() string {
 			b.WriteString("  mk ::\n")
 		}
 		b.WriteString("  deriving Repr, DecidableEq\n\n")
+		if _, dup := texts[t.Obj().Name()]; dup {
+			panic(giveUp{fmt.Sprintf("two structures named %s", t.Obj().Name())})
+		}
+		names = append(names, t.Obj().Name())
+		texts[t.Obj().Name()] = b.String()
 	}
-	return b.String()
+	return names, texts
 }
 
 func (og *ogen) visitFieldStructs(t types.Type, visit func(*types.Named)) {
